@@ -57,10 +57,15 @@ def insertNetpol (e : Engine) (np : NetPol) : Except Err Engine :=
   if e.netpols.any (fun q => q.ns == np.ns && q.name == np.name) then .error .dupNetpol
   else .ok { e with netpols := e.netpols ++ [np] }
 
+/-- position by priority: after every entry whose priority is not greater (`sort.Search` for the first greater one) -/
+def insertSorted (a : ANP) : List ANP → List ANP
+  | [] => [a]
+  | b :: bs => if b.prio > a.prio then a :: b :: bs else b :: insertSorted a bs
+
 def insertANP (e : Engine) (a : ANP) : Except Err Engine :=
   if e.exposure then .error .exposureWithANP
   else if e.anpNames.contains a.name then .error .dupANP
-  else .ok { e with anpNames := e.anpNames ++ [a.name], anps := e.anps ++ [a] }
+  else .ok { e with anpNames := e.anpNames ++ [a.name], anps := insertSorted a e.anps }
 
 def insertBANP (e : Engine) (b : BANP) : Except Err Engine :=
   if e.exposure then .error .exposureWithANP
